@@ -132,6 +132,12 @@ def start_field(name, seed):
         flat[1, 0] = 1e-9
         flat[2, :] = 0.0
         flat[2, -1] = 1e-7
+    if cplx and k >= 2 and flat.shape[0] > 4:
+        # complex vectors whose component SQUARES cancel although the vector is not zero: |(1, i, 0)| = sqrt(2)
+        flat[3, :] = 0.0
+        flat[3, 0], flat[3, 1] = 1.0, 1.0j
+        flat[4, :] = 0.0
+        flat[4, 0], flat[4, -1] = 2.0, -2.0j
     return df.Field(mesh, nvdim=k, value=a, dtype=complex if cplx else None, valid=coded_mask(n, 0), unit="A/m",
                     vdims=extra.get("vdims"), vdim_mapping=extra.get("vdim_mapping"))
 
@@ -693,7 +699,7 @@ PROVENANCE = ["constructor", "neg", "hdf5", "vtk", "sel", "rot90", "pad", "resam
 
 
 def unit_setters(ctx):
-    starts = STARTS_Q if ctx.tier == "quick" else STARTS_T
+    starts = (STARTS_Q + [STARTS_T[-1]]) if ctx.tier == "quick" else STARTS_T  # the complex vector field also in quick
     start = ctx.choose("start", [s[0] for s in starts])
     prov = ctx.choose("provenance", PROVENANCE)
     nm = ctx.choose("input", SETTERS)
